@@ -1,9 +1,9 @@
 (* C18Proofs.v — text-level lemmas (the edit of the classic file reads back as the override value)
    and the non-vacuity witness of Prop_C18. *)
 From Coq Require Import ZArith List Bool Ascii String Floats Lia.
-From Hermes Require Import Num DateModel CropParamModel CropParamProofs OverrideModel OverrideProofs C13Proofs C13Corr.
+From Hermes Require Import Num DateModel CropParamModel CropParamProofs OverrideModel OverrideProofs CropSamples C13Corr.
 Import ListNotations.
-Open Scope Z_scope.
+Local Open Scope Z_scope.
 
 Lemma ltrim_blanks n t : ltrim (blanks n ++ t) = ltrim t.
 Proof. induction n as [|n IH]; cbn; [reflexivity|exact IH]. Qed.
@@ -265,7 +265,7 @@ Lemma sample_override :
     state_of_yaml false r zero_state = Some s /\
     parse_overrides [(lstr_of "c_TSUM_2", lstr_of "300"); (lstr_of "c_PRO_1_2", lstr_of "0.25")] = Some o /\
     valid o (NRKOM s) (NRENTW s) = true /\ tendsum (apply false o s) <> tendsum s /\
-    parse_overrides [(lstr_of "c_TSUM_3", lstr_of "300")] = Some o' /\ valid o' (NRKOM s) (NRENTW s) = false.
+    parse_overrides (T:=float) [(lstr_of "c_TSUM_3", lstr_of "300")] = Some o' /\ valid o' (NRKOM s) (NRENTW s) = false.
 Proof.
   eexists. eexists. eexists. eexists.
   split; [vm_compute; reflexivity|].
@@ -277,4 +277,17 @@ Proof.
     assert (E : PrimFloat.eqb 448%float 432%float = true) by (rewrite H; reflexivity).
     vm_compute in E. discriminate E.
   - split; vm_compute; reflexivity.
+Qed.
+
+(* F29: a temperature sum of 0 is out of range (the smallest positive decimal stays valid) *)
+Lemma tsum_zero_rejected :
+  exists r s o o', convert (T:=float) sample_lines = Some r /\ state_of_yaml false r zero_state = Some s /\
+    parse_overrides [(lstr_of "c_TSUM_1", lstr_of "0"); (lstr_of "c_MAXAMAX", lstr_of "30")] = Some o /\
+    valid o (NRKOM s) (NRENTW s) = false /\ apply false o s = s /\
+    parse_overrides (T:=float) [(lstr_of "c_TSUM_1", lstr_of "0.000000001")] = Some o' /\ valid o' (NRKOM s) (NRENTW s) = true.
+Proof.
+  eexists. eexists. eexists. eexists.
+  split; [vm_compute; reflexivity|]. split; [vm_compute; reflexivity|]. split; [vm_compute; reflexivity|].
+  split; [vm_compute; reflexivity|]. split; [apply invalid_rejected_lemma; vm_compute; reflexivity|].
+  split; vm_compute; reflexivity.
 Qed.
